@@ -38,6 +38,7 @@ import (
 
 	"github.com/parquet-go/parquet-go"
 	"github.com/parquet-go/parquet-go/encoding"
+	"github.com/parquet-go/parquet-go/format"
 
 	"verif/harness/core"
 	"verif/harness/gen"
@@ -105,7 +106,7 @@ func c16Spare(b []byte, extra int) []byte {
 func c16MakeRec(salt, i int, spare bool, maxMap int) c16Rec {
 	r := c16Rec{ID: int64(i)}
 	r.S = string(c16Text(salt, i, 0))
-	r.D = fmt.Sprintf("dict-%d-%d-%s", salt, i%5, strings.Repeat("d", (i%5)*9))
+	r.D = fmt.Sprintf("dict-%d-%d-%s", salt, i%11, strings.Repeat("d", (i%11)*6)) // 11 values, about 460 bytes of dictionary
 	r.B = c16Text(salt, i, 1)
 	copy(r.F[:], c16Text(salt+1, i*3+6, 2)) // length 300 cell: always fills
 	for k := range r.F {
@@ -409,11 +410,14 @@ var c16Encodings = map[string]encoding.Encoding{
 
 var c16CodecNames = []string{"none", "snappy", "gzip", "brotli", "zstd", "lz4"}
 
-// c16FileSpec describes a file reproducibly: a typed file of c16Rec rows
-// (salt, rows, byte array encoding, codec, page size, page version, row group
-// size) or a generated generic file (gen.Case).
+// c16FileSpec describes a file reproducibly: a typed file of c16Rec rows or a
+// file of c16DynS rows written with the explicit schema c16DynSchema (salt,
+// rows, and the writer options that shape the pages the readers hand out: byte
+// array encoding, codec, page buffer size, data page version, row group size,
+// DictionaryMaxBytes), or a generated generic file (gen.Case).
 type c16FileSpec struct {
 	Typed   bool      `json:"typed"`
+	Dyn     bool      `json:"dyn,omitempty"`
 	Salt    int       `json:"salt,omitempty"`
 	Rows    int       `json:"rows,omitempty"`
 	Enc     string    `json:"enc,omitempty"`
@@ -421,6 +425,7 @@ type c16FileSpec struct {
 	PageBuf int       `json:"page_buffer,omitempty"`
 	Version int       `json:"version,omitempty"`
 	RGRows  int64     `json:"rg_rows,omitempty"`
+	DictMax int64     `json:"dictionary_max_bytes,omitempty"` // > 0: dictionary columns fall back to PLAIN pages once their dictionary is larger
 	Gen     *gen.Case `json:"gen,omitempty"`
 }
 
@@ -439,6 +444,8 @@ type c16Built struct {
 	rgOff  []int64
 	ncols  int
 	baCols int // number of byte array leaf columns
+	dict   int // column chunks that have a dictionary page
+	mixed  int // ... of which hold PLAIN data pages too (dictionary -> PLAIN fallback inside the chunk)
 	path   string
 	schema *parquet.Schema
 }
@@ -474,7 +481,7 @@ func c16BuildNew(spec c16FileSpec) (b *c16Built, err error) {
 	}()
 	b = &c16Built{spec: spec}
 	var buf bytes.Buffer
-	if spec.Typed {
+	if spec.Typed || spec.Dyn {
 		opts := []parquet.WriterOption{parquet.PageBufferSize(spec.PageBuf), parquet.DataPageVersion(spec.Version),
 			parquet.Compression(gen.Codecs[spec.Codec])}
 		if spec.RGRows > 0 {
@@ -486,8 +493,29 @@ func c16BuildNew(spec c16FileSpec) (b *c16Built, err error) {
 				opts = append(opts, parquet.DefaultEncodingFor(parquet.FixedLenByteArray, e))
 			}
 		}
-		w := parquet.NewGenericWriter[c16Rec](&buf, opts...)
-		b.schema = c16Schema
+		if spec.DictMax > 0 {
+			opts = append(opts, parquet.DictionaryMaxBytes(spec.DictMax))
+		}
+		var w interface {
+			WriteRows([]parquet.Row) (int, error)
+			Close() error
+		}
+		var mkRow func(i int) parquet.Row
+		if spec.Dyn {
+			w = parquet.NewGenericWriter[c16DynS](&buf, append(opts, c16DynSchema)...)
+			b.schema = c16DynSchema
+			mkRow = func(i int) parquet.Row {
+				rec := c16DynMake(spec.Salt, i)
+				return c16DynSchema.Deconstruct(nil, &rec)
+			}
+		} else {
+			w = parquet.NewGenericWriter[c16Rec](&buf, opts...)
+			b.schema = c16Schema
+			mkRow = func(i int) parquet.Row {
+				rec := c16MakeRec(spec.Salt, i, false, 2)
+				return c16Schema.Deconstruct(nil, &rec)
+			}
+		}
 		for i := 0; i < spec.Rows; {
 			k := 13
 			if i+k > spec.Rows {
@@ -495,8 +523,7 @@ func c16BuildNew(spec c16FileSpec) (b *c16Built, err error) {
 			}
 			batch := make([]parquet.Row, k)
 			for j := range batch {
-				rec := c16MakeRec(spec.Salt, i+j, false, 2)
-				row := c16Schema.Deconstruct(nil, &rec).Clone()
+				row := mkRow(i + j).Clone()
 				b.rows = append(b.rows, row)
 				batch[j] = row.Clone()
 			}
@@ -535,6 +562,20 @@ func c16BuildNew(spec c16FileSpec) (b *c16Built, err error) {
 		b.rgRows = append(b.rgRows, rg.NumRows())
 		b.rgOff = append(b.rgOff, off)
 		off += rg.NumRows()
+	}
+	for _, rg := range f.Metadata().RowGroups {
+		for _, col := range rg.Columns {
+			if col.MetaData.DictionaryPageOffset <= 0 {
+				continue
+			}
+			b.dict++
+			for _, es := range col.MetaData.EncodingStats {
+				if (es.PageType == format.DataPage || es.PageType == format.DataPageV2) && es.Encoding == format.Plain && es.Count > 0 {
+					b.mixed++
+					break
+				}
+			}
+		}
 	}
 	for _, l := range f.Schema().Columns() {
 		b.ncols++
@@ -603,6 +644,20 @@ func c16TypedSpec(rng *rand.Rand, rows int) c16FileSpec {
 	if rng.Intn(3) != 0 {
 		s.RGRows = int64(10 + rng.Intn(s.Rows))
 	}
+	if rng.Intn(3) == 0 {
+		s.DictMax = c16DictMaxes[rng.Intn(len(c16DictMaxes))]
+	}
+	return s
+}
+
+// DictionaryMaxBytes: from "the first page already exceeds it" to "never
+// reached by the small dictionaries, reached late by the large ones".
+var c16DictMaxes = []int64{48, 200, 700, 2000, 6000}
+
+// c16DynSpec: a file of c16DynS rows (explicit schema), same writer options.
+func c16DynSpec(rng *rand.Rand, rows int) c16FileSpec {
+	s := c16TypedSpec(rng, rows)
+	s.Typed, s.Dyn = false, true
 	return s
 }
 
@@ -787,6 +842,10 @@ type c16ReaderSpec struct {
 	Kind  string      `json:"kind"` // rows | rowreader (NewRowGroupRowReader) | reader | generic | whole
 	RG    int         `json:"row_group,omitempty"`
 	Async bool        `json:"async,omitempty"`
+	// destination type of the typed reads of a reader | generic | whole reader (dyn.go):
+	// "" c16Rec with SchemaOf; with an explicit schema: struct | mapfields | anyfields |
+	// map (map[string]any pre-made by the caller) | nilmap (nil maps) | any
+	Dst string `json:"dst,omitempty"`
 }
 
 type c16HistCase struct {
@@ -897,6 +956,7 @@ type c16Held struct {
 	reader int
 	canon  func() [][]byte // what the caller holds now, canonical, one entry per row / record
 	diff   func(before, after []byte) string
+	diffAt func(i int, before, after []byte) string // optional: knows the row/record it is about
 	snap   [][]byte
 	ba     int // non-empty byte array values held
 	churns int
@@ -931,7 +991,13 @@ func (o *c16Outcome) compare(h *c16Held, op int, when string) {
 	}
 	for i := range now {
 		if !bytes.Equal(now[i], h.snap[i]) {
-			o.fail("held-value-changed", h.id, op, "batch %d (%c of reader %d) changed %s: row/record %d of the batch: %s", h.id, h.kind, h.reader, when, i, h.diff(h.snap[i], now[i]))
+			d := ""
+			if h.diffAt != nil {
+				d = h.diffAt(i, h.snap[i], now[i])
+			} else {
+				d = h.diff(h.snap[i], now[i])
+			}
+			o.fail("held-value-changed", h.id, op, "batch %d (%c of reader %d) changed %s: row/record %d of the batch: %s", h.id, h.kind, h.reader, when, i, d)
 			return
 		}
 	}
@@ -969,18 +1035,17 @@ func c16HoldRecs(id int, reader int, recs []c16Rec) *c16Held {
 
 // c16Reader is one reader of a history.
 type c16Reader struct {
-	spec    c16ReaderSpec
-	b       *c16Built
-	rows    parquet.Rows
-	rd      *parquet.Reader
-	gr      *parquet.GenericReader[c16Rec]
-	off     int64 // global number of the reader's first row
-	total   int64
-	pos     int64
-	closed  bool
-	lastDst []c16Rec
-	one     c16Rec
-	spare   []parquet.Row // rows of an ended batch, recycled as destination
+	spec   c16ReaderSpec
+	b      *c16Built
+	rows   parquet.Rows
+	rd     *parquet.Reader
+	gr     parquet.Rows   // the GenericReader[T] of ta
+	ta     c16TypedAccess // typed reads into the destination type spec.Dst
+	off    int64          // global number of the reader's first row
+	total  int64
+	pos    int64
+	closed bool
+	spare  []parquet.Row // rows of an ended batch, recycled as destination
 }
 
 func c16NewReader(spec c16ReaderSpec, files map[string]*parquet.File) (*c16Reader, error) {
@@ -990,6 +1055,9 @@ func c16NewReader(spec c16ReaderSpec, files map[string]*parquet.File) (*c16Reade
 	}
 	r := &c16Reader{spec: spec, b: b, total: b.total}
 	if spec.Kind == "whole" {
+		if r.ta, err = c16NewDst(b, nil, spec.Dst); err != nil {
+			return nil, err
+		}
 		return r, nil
 	}
 	fk := fmt.Sprintf("%s/%v", spec.File.key(), spec.Async)
@@ -1014,21 +1082,26 @@ func c16NewReader(spec c16ReaderSpec, files map[string]*parquet.File) (*c16Reade
 		r.rows = parquet.NewRowGroupRowReader(f.RowGroups()[spec.RG])
 		r.off, r.total = b.rgOff[spec.RG], b.rgRows[spec.RG]
 	case "reader":
-		r.rd = parquet.NewReader(f)
-	case "generic":
-		if !spec.File.Typed {
-			return nil, fmt.Errorf("generic reader needs a typed file")
+		if spec.File.Typed || spec.File.Dyn {
+			if r.ta, err = c16NewDst(b, f, spec.Dst); err != nil {
+				return nil, err
+			}
+			r.rd = parquet.NewReader(f, r.ta.readerOptions()...)
+		} else {
+			r.rd = parquet.NewReader(f)
 		}
-		r.gr = parquet.NewGenericReader[c16Rec](f)
+	case "generic":
+		if r.ta, err = c16NewDst(b, f, spec.Dst); err != nil {
+			return nil, err
+		}
+		r.gr = r.ta.openGeneric(f)
 	default:
 		return nil, fmt.Errorf("unknown reader kind %q", spec.Kind)
 	}
 	return r, nil
 }
 
-func (r *c16Reader) canTyped() bool {
-	return r.spec.File.Typed && (r.spec.Kind == "reader" || r.spec.Kind == "generic" || r.spec.Kind == "whole")
-}
+func (r *c16Reader) canTyped() bool { return r.ta != nil }
 
 func (r *c16Reader) readRows(n int) (rows []parquet.Row, cnt int, err error) {
 	dst := make([]parquet.Row, n)
@@ -1052,54 +1125,27 @@ func (r *c16Reader) readRows(n int) (rows []parquet.Row, cnt int, err error) {
 	return dst[:cnt], cnt, err
 }
 
-// readTyped returns the Go values handed to the caller (shallow copies when
-// the destination is going to be reused) and the number of the first row.
-func (r *c16Reader) readTyped(n int, reuse bool) (held []c16Rec, first int64, err error) {
+// readTyped returns the Go values handed to the caller (a slice []T of the
+// destination type; shallow copies of what the calls filled, see dyn.go) and
+// the number of the first row.
+func (r *c16Reader) readTyped(n int, reuse bool) (held reflect.Value, first int64, err error) {
 	first = r.pos
+	var batch any
 	switch {
+	case r.ta == nil:
+		return reflect.ValueOf([]c16Rec(nil)), first, fmt.Errorf("the reader has no typed side")
 	case r.gr != nil:
-		var dst []c16Rec
-		if reuse && len(r.lastDst) > 0 {
-			dst = r.lastDst
-			if len(dst) > n {
-				dst = dst[:n]
-			}
-		} else {
-			dst = make([]c16Rec, n)
-		}
-		var cnt int
-		cnt, err = r.gr.Read(dst)
-		if cnt < 0 || cnt > len(dst) {
-			return nil, first, fmt.Errorf("Read returned %d for %d rows", cnt, len(dst))
-		}
-		r.lastDst = dst
-		held = append([]c16Rec(nil), dst[:cnt]...)
+		batch, err = r.ta.readGeneric(n, reuse)
 	case r.rd != nil:
-		for j := 0; j < n; j++ {
-			rec := new(c16Rec)
-			if reuse {
-				rec = &r.one
-			}
-			if err = r.rd.Read(rec); err != nil {
-				break
-			}
-			held = append(held, *rec)
-		}
+		batch, err = r.ta.readEach(r.rd, n, reuse)
 	default: // whole file helpers
 		first = 0
 		if r.closed {
-			return nil, 0, io.EOF
+			return reflect.ValueOf([]c16Rec(nil)), 0, io.EOF
 		}
-		if n%2 == 0 {
-			held, err = parquet.Read[c16Rec](bytes.NewReader(r.b.data), int64(len(r.b.data)))
-		} else {
-			var p string
-			if p, err = r.b.filePath(); err == nil {
-				held, err = parquet.ReadFile[c16Rec](p)
-			}
-		}
+		batch, err = r.ta.readWhole(r.b, n%2 == 1)
 	}
-	return held, first, err
+	return reflect.ValueOf(batch), first, err
 }
 
 func (r *c16Reader) seek(k int64) error {
@@ -1129,7 +1175,7 @@ func (r *c16Reader) reset() error {
 	case r.rd != nil:
 		r.rd.Reset()
 	case r.gr != nil:
-		r.gr.Reset()
+		r.ta.reset()
 	}
 	return nil
 }
@@ -1280,28 +1326,38 @@ func c16ExecHistBody(cs *c16HistCase) (o *c16Outcome) {
 				o.fail("error", -1, j, "op %d %s: typed read of %d rows at row %d of %d: %v", j, op.Tok, op.N, first, rd.total, err)
 				return o
 			}
-			if rd.closed && len(recs) > 0 && rd.spec.Kind != "whole" {
-				o.fail("wrong-value", j, j, "op %d %s: %d records from a closed reader", j, op.Tok, len(recs))
+			nrecs := recs.Len()
+			if rd.closed && nrecs > 0 && rd.spec.Kind != "whole" {
+				o.fail("wrong-value", j, j, "op %d %s: %d records from a closed reader", j, op.Tok, nrecs)
 				return o
 			}
-			if first+int64(len(recs)) > rd.total {
-				o.fail("wrong-value", j, j, "op %d %s: %d records at row %d of %d", j, op.Tok, len(recs), first, rd.total)
+			if first+int64(nrecs) > rd.total {
+				o.fail("wrong-value", j, j, "op %d %s: %d records at row %d of %d", j, op.Tok, nrecs, first, rd.total)
 				return o
 			}
-			for x := range recs {
-				want := c16MakeRec(rd.spec.File.Salt, int(first)+x, false, 2)
-				if g, w := c16CanonGo(&recs[x], false), c16CanonGo(&want, false); !bytes.Equal(g, w) {
-					o.fail("wrong-value", j, j, "op %d %s: record %d of the batch (row %d of the file) differs from what was written (id=%d s=%q m=%v, expected id=%d s=%q m=%v): %s",
-						j, op.Tok, x, int(first)+x, recs[x].ID, core.Trunc(recs[x].S, 40), recs[x].M, want.ID, core.Trunc(want.S, 40), want.M, c16DiffBytes(w, g))
+			for x := 0; x < nrecs; x++ {
+				if typed, ok := recs.Interface().([]c16Rec); ok {
+					want := c16MakeRec(rd.spec.File.Salt, int(first)+x, false, 2)
+					if g, w := c16CanonGo(&typed[x], false), c16CanonGo(&want, false); !bytes.Equal(g, w) {
+						o.fail("wrong-value", j, j, "op %d %s: record %d of the batch (row %d of the file) differs from what was written (id=%d s=%q m=%v, expected id=%d s=%q m=%v): %s",
+							j, op.Tok, x, int(first)+x, typed[x].ID, core.Trunc(typed[x].S, 40), typed[x].M, want.ID, core.Trunc(want.S, 40), want.M, c16DiffBytes(w, g))
+						return o
+					}
+					continue
+				}
+				// the other destination types: names and content
+				if g, w := c16NormOf(recs.Index(x).Addr().Interface()), rd.b.expectNorm(int(first)+x); g != w {
+					o.fail("wrong-value", j, j, "op %d %s: record %d of the batch (row %d of the file, read into %s) differs from what was written: %s",
+						j, op.Tok, x, int(first)+x, recs.Type().Elem(), c16DiffText(w, g))
 					return o
 				}
 			}
 			if rd.spec.Kind != "whole" {
-				rd.pos += int64(len(recs))
+				rd.pos += int64(nrecs)
 			}
-			held[j] = c16HoldRecs(j, i, recs)
+			held[j] = c16HoldGo(j, i, recs.Interface())
 			o.batches++
-			o.values += len(recs)
+			o.values += nrecs
 		case 'k':
 			if s := src[j]; s >= 0 {
 				orig := lastRows[s]
@@ -1635,8 +1691,14 @@ func c16GenHist(rng *rand.Rand, pool []c16FileSpec, maxOps int) *c16HistCase {
 		}
 		rs := c16ReaderSpec{File: spec, Async: rng.Intn(4) == 0}
 		total := b.total
-		if spec.Typed {
+		if spec.Typed || spec.Dyn {
 			rs.Kind = []string{"rows", "rowreader", "reader", "generic", "generic", "whole"}[rng.Intn(6)]
+			if dsts := c16DstsOf(spec, rs.Kind); rs.Kind != "rows" && rs.Kind != "rowreader" {
+				rs.Dst = dsts[rng.Intn(len(dsts))]
+				if spec.Typed && rng.Intn(2) == 0 {
+					rs.Dst = "" // the struct the rows came from
+				}
+			}
 		} else {
 			rs.Kind = []string{"rows", "rowreader", "reader"}[rng.Intn(3)]
 		}
@@ -1648,7 +1710,7 @@ func c16GenHist(rng *rand.Rand, pool []c16FileSpec, maxOps int) *c16HistCase {
 			rs.Async = false
 		}
 		cs.Readers = append(cs.Readers, rs)
-		infos = append(infos, info{total: total, typed: spec.Typed && rs.Kind != "rows" && rs.Kind != "rowreader", kind: rs.Kind})
+		infos = append(infos, info{total: total, typed: (spec.Typed || spec.Dyn) && rs.Kind != "rows" && rs.Kind != "rowreader", kind: rs.Kind})
 	}
 	n := 4 + rng.Intn(maxOps-3)
 	for len(cs.Ops) < n {
@@ -1665,7 +1727,7 @@ func c16GenHist(rng *rand.Rand, pool []c16FileSpec, maxOps int) *c16HistCase {
 			}
 		case x < 45:
 			if in.typed {
-				op := c16Op{Tok: tok('t'), N: c16BatchSizes[rng.Intn(5)], Reuse: rng.Intn(5) == 0}
+				op := c16Op{Tok: tok('t'), N: c16BatchSizes[rng.Intn(5)], Reuse: rng.Intn(4) == 0}
 				if in.kind == "reader" && op.N > 5 {
 					op.N = 5
 				}
@@ -2518,7 +2580,7 @@ func runC16(c *core.Ctx) {
 			os.RemoveAll(c16TmpDir)
 		}
 	}()
-	c.Res.Rule = "Pools poison what is returned to them. FILES of known content: typed files of c16Rec rows (int64, string, dictionary string, []byte, [16]byte, [5]byte, uuid, *string, []string, nested struct with string/*string/[]byte, map[string]string; cell lengths 0..300; written row by row so every value is known) over every byte array encoding (default, plain, delta length, delta byte array, dictionary) x codec (none snappy gzip brotli zstd lz4) x data page v1/v2 x page buffer 64..4096 x 1..n row groups, and generated generic files (gen.Case, >= 2 byte array leaves, nested/optional/repeated). HISTORIES of 4..40 operations over 2..4 readers (RowGroup.Rows, NewRowGroupRowReader, parquet.Reader, GenericReader[T], parquet.Read/ReadFile; sync and async) of possibly different files: ReadRows (1..200 rows, sometimes into recycled rows), typed reads (sometimes into the previous destination whose shallow copies the caller kept), Row.Clone of the last batch, SeekToRow, Reset of every reader kind (Reader.Reset, GenericReader.Reset, the Reset method of row group row readers; mostly followed at once by a ReadRows of 5..200 rows, the reader is used on after it, also after Close), Close, churn (other files read by rows and by pages, files written with all codecs, buffers filled/sorted/reset, in this and 2..4 other goroutines), GC (+FreeOSMemory). Every batch is compared with the file content at once and with its deep snapshot after every later operation for as long as the caller is entitled to it (rows until the next call on the same reader; Go values and clones for ever, also after Close and a final churn); the entitlement sets are computed in Go and compared with the model. PAGES: values and dictionary values of 1..3 pages held until Release under churn. BUFFERS: Buffer/GenericBuffer written in several batches (Write/WriteRows), read back after every batch, after sort.Sort (4 sort keys incl. ties and empty strings) and Reset; clones and Go values held across later writes, sort, Reset. CALLER SLICES: 13 write entry points x sorting config x repeated rows, inputs unsorted with spare capacity holding sentinels; full canonical form (contents, order, addresses, capacity region) before vs after write, sort, flush, close, churn. A case is non-trivial when at least one non-empty byte array value was held across at least one churn or GC (caller cases: more than one row); distinct by the JSON of the case."
+	c.Res.Rule = "Pools poison what is returned to them. FILES of known content: typed files of c16Rec rows (int64, string, dictionary string, []byte, [16]byte, [5]byte, uuid, *string, []string, nested struct with string/*string/[]byte, map[string]string; cell lengths 0..300; written row by row so every value is known) over every byte array encoding (default, plain, delta length, delta byte array, dictionary) x codec (none snappy gzip brotli zstd lz4) x data page v1/v2 x page buffer 64..4096 x 1..n row groups x DictionaryMaxBytes (none, 48..6000: dictionary columns that fall back to PLAIN pages in the middle of a chunk, early or late), files of c16DynS rows written with an EXPLICIT schema of parquet.Group nodes (nested groups, optional group, repeated group, LIST, MAP, repeated leaf, dictionary column; same writer options), and generated generic files (gen.Case, >= 2 byte array leaves, nested/optional/repeated). DESTINATION TYPES of typed reads: c16Rec (SchemaOf); with the explicit schema c16DynS, a struct whose groups are Go maps (map[string]any, map[string]string, []map[string]string, []any, any), a struct of `any` fields, rows of type map[string]any (maps pre-made by the caller, or nil) and rows of type any - through GenericReader[T].Read, Reader.Read(&v), parquet.Read[T]/ReadFile[T]; values of every destination type are compared with the known content through a normal form of names and content, and held as full canonical forms (content, addresses, map identities, spare capacity). WRITER SHAPES x READER KINDS (systematic): 24 (thorough 96) files walking DictionaryMaxBytes {none,48,200,350,700,2000} x default/dictionary encoding of every byte array column x v1/v2 x 6 codecs x page buffer {64,200,512,1500} x 1/3 row groups x both families, each read by RowGroup.Rows, NewRowGroupRowReader, GenericReader (destination types in turn) and Reader / whole-file helper in one history with batches that span many pages, once in ReadModeSync and once in ReadModeAsync; a shape with a limit counts as non-trivial only when the file has a chunk with a dictionary page AND PLAIN data pages. DESTINATION CORPUS: every destination type x {GenericReader, Reader, whole file}, the usual loop passing the same destination to every call while the caller keeps what earlier calls filled, with churn, GC, ReadRows, Clone, seek, Reset, Close in between. HISTORIES of 4..40 operations over 2..4 readers (RowGroup.Rows, NewRowGroupRowReader, parquet.Reader, GenericReader[T], parquet.Read/ReadFile; sync and async) of possibly different files: ReadRows (1..200 rows, sometimes into recycled rows), typed reads into a random destination type (1 in 4 into the previous destination whose shallow copies the caller kept), Row.Clone of the last batch, SeekToRow, Reset of every reader kind (Reader.Reset, GenericReader.Reset, the Reset method of row group row readers; mostly followed at once by a ReadRows of 5..200 rows, the reader is used on after it, also after Close), Close, churn (other files read by rows and by pages, files written with all codecs, buffers filled/sorted/reset, in this and 2..4 other goroutines), GC (+FreeOSMemory). Every batch is compared with the file content at once and with its deep snapshot after every later operation for as long as the caller is entitled to it (rows until the next call on the same reader; Go values and clones for ever, also after Close and a final churn); the entitlement sets are computed in Go and compared with the model. PAGES: values and dictionary values of 1..3 pages held until Release under churn. BUFFERS: Buffer/GenericBuffer written in several batches (Write/WriteRows), read back after every batch, after sort.Sort (4 sort keys incl. ties and empty strings) and Reset; clones and Go values held across later writes, sort, Reset. CALLER SLICES: 13 write entry points x sorting config x repeated rows, inputs unsorted with spare capacity holding sentinels; full canonical form (contents, order, addresses, capacity region) before vs after write, sort, flush, close, churn. A case is non-trivial when at least one non-empty byte array value was held across at least one churn or GC (caller cases: more than one row); distinct by the JSON of the case."
 	if err := c16ChurnInit(); err != nil {
 		c.Violation("file", "cannot write the churn files: "+err.Error(), nil)
 		return
@@ -2538,6 +2600,10 @@ func runC16(c *core.Ctx) {
 	for k := 0; k < c.N(12, 36); k++ {
 		spec := c16TypedSpec(rng, c.N(90, 240))
 		spec.Enc, spec.Codec, spec.Version = encs[k%len(encs)], c16CodecNames[k%len(c16CodecNames)], 1+(k/2)%2
+		if spec.Enc == "dict" {
+			// every byte array column dictionary encoded: without limit, and with limits met early and late
+			spec.DictMax = []int64{200, 0, 2000, 48, 700, 6000}[(k/len(encs))%6]
+		}
 		if _, err := c16Build(spec); err != nil {
 			c.Violation("file", fmt.Sprintf("cannot write a typed file: %v", err), spec)
 			continue
@@ -2545,6 +2611,17 @@ func runC16(c *core.Ctx) {
 		typed = append(typed, spec)
 	}
 	pool = append(pool, typed...)
+	var dyn []c16FileSpec
+	for k := 0; k < c.N(5, 15); k++ {
+		spec := c16DynSpec(rng, c.N(90, 240))
+		spec.Enc, spec.Codec, spec.Version = encs[(k*2)%len(encs)], c16CodecNames[(k+3)%len(c16CodecNames)], 1+k%2
+		if _, err := c16Build(spec); err != nil {
+			c.Violation("file", fmt.Sprintf("cannot write a file with the explicit schema: %v", err), spec)
+			continue
+		}
+		dyn = append(dyn, spec)
+	}
+	pool = append(pool, dyn...)
 	skipped := 0
 	for k := 0; k < c.N(6, 20); k++ {
 		spec := c16GenSpec(rng, c.N(70, 160))
@@ -2585,8 +2662,12 @@ func runC16(c *core.Ctx) {
 	}
 
 	lap("corpus histories")
+	c16Shapes(c)
+	lap("writer shapes x reader kinds")
+	c16DstCorpus(c, typed, dyn)
+	lap("destination types")
 	// ---- random histories
-	nh := c.N(400, 2000)
+	nh := c.N(330, 2000)
 	for i := 0; i < nh; i++ {
 		cs := c16GenHist(rng, pool, 40)
 		bucket := "held/rows"
